@@ -31,6 +31,9 @@ struct Src {
     usable: bool,
     ops: Vec<Op>,
     cursor: usize,
+    /// one-way, non-periodic source: (local receive time, remote - local in fixed point) of its first measurement
+    first_oneway: Option<(u64, i64)>,
+    messages_seen: u64,
 }
 
 struct Oracle {
@@ -478,6 +481,28 @@ impl InternalTimeSyncController for Spy {
             message.verif_delay()
         );
         self.match_op(id, Op::Measure(t));
+        {
+            // C05, one-way part: the very first estimate of a one-way source is its first
+            // measurement, which must be remote time minus local time
+            let mut o = self.sh.lock().unwrap();
+            if let Some(e) = o.srcs.get_mut(&clock_id_raw(id)) {
+                e.messages_seen += 1;
+                if e.messages_seen == 1 {
+                    if let Some((local, want)) = e.first_oneway {
+                        if local == t {
+                            let want_s = fixed_to_secs(want);
+                            check!(
+                                "C05",
+                                "one-way-offset-is-remote-minus-local",
+                                (message.verif_offset() - want_s).abs() <= 1e-9 * want_s.abs() + 1e-9,
+                                "one-way source {id}: first estimate {} but remote - local = {want_s}",
+                                message.verif_offset()
+                            );
+                        }
+                    }
+                }
+            }
+        }
         let removed = self.sh.lock().unwrap().srcs.get(&clock_id_raw(id)).map(|s| s.removed).unwrap_or(true);
         let decision = self.inner.verif_decision_view(id, &message);
         if removed {
@@ -682,6 +707,13 @@ impl SrcTask {
                 let remote = self.server_raw(simkit::now_ns(), outlier + noise);
                 let local = self.clock.raw_now();
                 self.push_op(id, Op::Measure(local));
+                if self.kind == Kind::OneWay {
+                    let mut o = self.sh.lock().unwrap();
+                    let e = o.srcs.entry(clock_id_raw(id)).or_default();
+                    if e.first_oneway.is_none() && e.messages_seen == 0 {
+                        e.first_oneway = Some((local, remote.wrapping_sub(local) as i64));
+                    }
+                }
                 ev!("src{} oneway id={id} remote={remote} local={local}", self.idx);
                 let mut m = meta(id, ClockId::SYSTEM, ts_from_fixed(remote), ts_from_fixed(local));
                 m.leap = NtpLeapIndicator::Unknown.max_known(leap);
@@ -836,7 +868,7 @@ pub fn run() {
     algo.maximum_frequency_steer = [495e-6, 100e-6, 1e-6, 5e-3][choose("cfg.maxfreq", 4) as usize];
     algo.slew_maximum_frequency_offset = [200e-6, 10e-6, 1e-3][choose("cfg.slewmax", 3) as usize];
     algo.slew_minimum_duration = [8.0, 1.0, 0.01, 100.0][choose("cfg.slewdur", 4) as usize];
-    algo.steer_offset_threshold = [2.0, 0.5, 4.0][choose("cfg.steerthr", 3) as usize];
+    algo.steer_offset_threshold = [2.0, 1.0, 4.0][choose("cfg.steerthr", 3) as usize];
     if chance("cfg.ignore-disp", 0.2) {
         algo.ignore_server_dispersion = true;
     }
